@@ -2,6 +2,7 @@ package node
 
 import (
 	"bytes"
+	"crypto/ed25519"
 	"fmt"
 	"sort"
 
@@ -9,6 +10,7 @@ import (
 	"github.com/canopy-network/canopy/fsm"
 	"github.com/canopy-network/canopy/lib"
 	"github.com/canopy-network/canopy/lib/crypto"
+	"github.com/canopy-network/canopy/store"
 )
 
 // ValKey is a validator identity the harness holds the key of.
@@ -24,6 +26,17 @@ type Chain struct {
 	Keys    map[string]crypto.PrivateKeyI // BLS public key hex -> private key (every validator that may ever join the committee)
 	Records []*BlockRecord                // committed heights in order
 	Time    uint64
+	last    *Node // the node driven last (see enter)
+}
+
+// enter is called before a node is driven. All nodes of a test binary share canopy's process-wide caches (the block
+// cache is keyed by height only), which real nodes - one per process - do not. Whenever control passes from one node to
+// another the caches are purged, so each node only ever sees cache entries it put there itself.
+func (ch *Chain) enter(n *Node) {
+	if ch.last != n {
+		store.VerifPurgeProcessCaches()
+		ch.last = n
+	}
 }
 
 // BlockRecord is what the driver recorded when a height was committed.
@@ -58,11 +71,7 @@ func BLSKey(i int) crypto.PrivateKeyI {
 func EdKey(i int) crypto.PrivateKeyI {
 	seed := make([]byte, 32)
 	seed[0], seed[1], seed[2], seed[31] = byte(i+1), byte((i+1)>>8), 0xED, 0x25
-	k, err := crypto.NewPrivateKeyFromBytes(seed)
-	if err != nil {
-		panic(err)
-	}
-	return k
+	return crypto.BytesToED25519Private(ed25519.NewKeyFromSeed(seed))
 }
 
 // GenesisSpec describes the initial state.
@@ -162,6 +171,7 @@ type Proposal struct {
 // Propose feeds txs to the proposer's mempool and runs the real ProduceProposal.
 func (ch *Chain) Propose(proposer int, txs [][]byte, evidence *bft.ByzantineEvidence) (*Proposal, lib.ErrorI) {
 	n := ch.Nodes[proposer]
+	ch.enter(n)
 	for _, tx := range txs {
 		// one by one: a rejected transaction must not keep the others out
 		_ = n.C.Mempool.HandleTransactions(tx)
@@ -197,6 +207,7 @@ func (ch *Chain) Validate(i int, p *Proposal, evidence *bft.ByzantineEvidence) (
 		evidence = &bft.ByzantineEvidence{DSE: bft.DoubleSignEvidences{}}
 	}
 	n := ch.Nodes[i]
+	ch.enter(n)
 	n.C.Lock()
 	defer n.C.Unlock()
 	return n.C.ValidateProposal(p.RCBuildHeight, cloneQC(p.QC), evidence)
@@ -216,6 +227,7 @@ func cloneQC(q *lib.QuorumCertificate) *lib.QuorumCertificate {
 
 // Committee returns the validator set that certifies p (as node 0 derives it).
 func (ch *Chain) Committee(n *Node, rootHeight uint64) (lib.ValidatorSet, lib.ErrorI) {
+	ch.enter(n)
 	return n.C.LoadCommittee(n.C.LoadRootChainId(n.C.ChainHeight()), rootHeight)
 }
 
@@ -255,6 +267,7 @@ func (ch *Chain) Certify(qc *lib.QuorumCertificate, vs lib.ValidatorSet, pick fu
 // cached: the node first validates the proposal (as a replica in PROPOSE_VOTE does) so the commit uses the cached result.
 func (ch *Chain) Deliver(i int, qc *lib.QuorumCertificate, cached *lib.BlockResult, syncing bool) lib.ErrorI {
 	n := ch.Nodes[i]
+	ch.enter(n)
 	n.C.Lock()
 	defer n.C.Unlock()
 	n.C.Consensus.BlockResult = cached
